@@ -831,6 +831,8 @@ class Interp:
         if isinstance(node.op, ast.Not):
             return S.Not(self.truth(v))
         if isinstance(node.op, ast.USub):
+            if isinstance(v, PObj) and '__neg__' in v.methods:
+                return self.call(v.methods['__neg__'], [v], {})
             if is_num(v):
                 return -v
         if isinstance(node.op, ast.UAdd):
@@ -856,7 +858,7 @@ class Interp:
             return a                  # message formatting: opaque
         if isinstance(a, PObj) or isinstance(b, PObj):
             nm = {ast.BitAnd: '__and__', ast.BitOr: '__or__', ast.BitXor: '__xor__', ast.Add: '__add__',
-                  ast.Sub: '__sub__', ast.Mult: '__mul__', ast.MatMult: '__matmul__'}.get(t)
+                  ast.Sub: '__sub__', ast.Mult: '__mul__', ast.MatMult: '__matmul__', ast.Mod: '__mod__', ast.Div: '__truediv__'}.get(t)
             if nm and isinstance(a, PObj) and nm in a.methods:
                 return self.call(a.methods[nm], [a, b], {})
             raise Unsupported("operator %s on object" % t.__name__)
